@@ -136,6 +136,8 @@ type Realm struct {
 	NoPOST       bool    // the OAuth2 POST endpoint does not exist (404)
 	Allowed      Set     // if non-nil: requests asking for more than this are refused with 401
 	RequireCreds bool    // 401 unless the request carries the credentials configured for the host
+	Stable       bool    // the same token string is issued again for the same (host, scope text)
+	stable       map[string]string
 	Lifetimes    []int   // expires_in values to draw from; -1 = field absent
 	Field        string  // token | access_token | both | "" (drawn per response)
 	RefreshProb  float64 // probability that a response carries a fresh refresh_token
@@ -497,8 +499,25 @@ func (w *World) serveToken(rl *Realm, req *http.Request, ex *Exchange) (*http.Re
 	if lifeWire > 0 {
 		life = time.Duration(lifeWire) * time.Second
 	}
+	value := ""
+	if rl.Stable {
+		// a token server that hands out the same string again for the same request (a signed,
+		// deterministic token; a cache in front of the token service)
+		if rl.stable == nil {
+			rl.stable = map[string]string{}
+		}
+		key := ex.ForHost + "\x00" + ex.ScopeText
+		if v, ok := rl.stable[key]; ok {
+			value = v
+		} else {
+			value = w.newSecretLocked("access-token", ex.ForHost)
+			rl.stable[key] = value
+		}
+	} else {
+		value = w.newSecretLocked("access-token", ex.ForHost)
+	}
 	tok := &Token{
-		Value:     w.newSecretLocked("access-token", ex.ForHost),
+		Value:     value,
 		ForHost:   ex.ForHost,
 		Realm:     rl.Host,
 		Service:   ex.Service,
